@@ -155,6 +155,17 @@ def distance_job(a):
         wts = [int(np.count_nonzero(np.logical_or(r[:code.n], r[code.n:]))) for r in list(code.logicals_x) + list(code.logicals_z)]
         if d != min(wts):
             return a, code.n, d, 'd=%d is not the minimum listed-logical weight %d' % (d, min(wts))
+        # upper bound witness, independent of C01: a listed operator of weight d really is a logical operator - it commutes with every generator and is not a
+        # product of generators (GF(2) rank of H with the row appended)
+        H = code.stabilizer_matrix.toarray() % 2
+        n = code.n
+        rows = list(code.logicals_x) + list(code.logicals_z)
+        w_ = np.asarray(rows[int(np.argmin(wts))]).astype(int) % 2
+        if np.any((H[:, :n] @ w_[n:] + H[:, n:] @ w_[:n]) % 2):
+            return a, code.n, d, 'd=%d is the weight of a listed logical that anticommutes with a stabilizer generator (not a logical operator at all)' % d
+        from bounded.codes import gf2_rank
+        if gf2_rank(np.vstack([H, w_]).astype(int).tolist()) == gf2_rank(H.astype(int).tolist()):
+            return a, code.n, d, 'd=%d is the weight of a listed "logical" that is a product of stabilizer generators' % d
         if d > 1:
             v, e = lighter_logical(code, d - 1)
             if v == 'sat':
